@@ -379,6 +379,14 @@ pub struct InstDeclaration {
 
 impl InstDeclaration {
     pub fn eval_assign(&self, context: &mut Context, assign_table: &mut AssignTable) {
+        // An input connection continuously reads its expression: without this a
+        // never-assigned bit that only feeds an instance is not reported.
+        for x in &self.inputs {
+            for expr in &x.exprs {
+                expr.eval_assign(context, assign_table, AssignContext::Ff);
+            }
+        }
+
         for x in &self.outputs {
             for dst in &x.dst {
                 dst.eval_assign(context, assign_table, AssignContext::Ff);
